@@ -6,7 +6,7 @@ namespace Gen
 
 namespace hybrid.DefaultConfig
 def PersistentPrefixes : List String := ["tunnox:user:", "tunnox:client:", "tunnox:config:client:", "tunnox:persist:client:config:", "tunnox:persist:clients:list", "tunnox:mapping:", "tunnox:persist:mapping:", "tunnox:persist:mappings:list", "tunnox:stats:persistent:"]
-def SharedPrefixes : List String := ["tunnox:conn_state:", "tunnox:client_conn:", "tunnox:tunnel_waiting:", "tunnox:node:", "tunnox:runtime:conncode:", "tunnox:index:conncode:target:", "tunnox:id:", "tunnox:runtime:client:state:", "tunnox:http_domain:index:", "tunnox:http_domain:next_id"]
+def SharedPrefixes : List String := ["tunnox:conn_state:", "tunnox:client_conn:", "tunnox:tunnel_waiting:", "tunnox:node:", "tunnox:runtime:conncode:", "tunnox:index:conncode:target:", "tunnox:id:", "tunnox:runtime:client:state:", "tunnox:http_domain:index:", "tunnox:http_domain:next_id", "tunnox:http_domain:deleting:"]
 def SharedPersistentPrefixes : List String := ["tunnox:client_mappings:", "tunnox:user_mappings:", "tunnox:port_mapping:", "tunnox:mappings:list", "tunnox:http_domain:mapping:", "tunnox:http_domain:client:", "webhook:", "webhooks:", "webhook_log:", "webhook_logs:"]
 def DefaultCacheTTL : Nat := 3600000000000
 def PersistentCacheTTL : Nat := 86400000000000
@@ -23,15 +23,15 @@ end hybrid
 
 namespace hybrid.Storage
 def isPersistent (h : Tunnox.C14.Storage) (key : String) : Bool :=
-  if (h.config.PersistentPrefixes).any (fun «prefix» => (hasPrefix key «prefix»)) then true
+  if (h.config.PersistentPrefixes).any (fun prefix_ => (hasPrefix key prefix_)) then true
   else
     false
 def isShared (h : Tunnox.C14.Storage) (key : String) : Bool :=
-  if (h.config.SharedPrefixes).any (fun «prefix» => (hasPrefix key «prefix»)) then true
+  if (h.config.SharedPrefixes).any (fun prefix_ => (hasPrefix key prefix_)) then true
   else
     false
 def isSharedPersistent (h : Tunnox.C14.Storage) (key : String) : Bool :=
-  if (h.config.SharedPersistentPrefixes).any (fun «prefix» => (hasPrefix key «prefix»)) then true
+  if (h.config.SharedPersistentPrefixes).any (fun prefix_ => (hasPrefix key prefix_)) then true
   else
     false
 def getCategory (h : Tunnox.C14.Storage) (key : String) : Nat :=
